@@ -552,7 +552,23 @@ def main():
     wd.start()
     results = {}
 
+    def mem_available_gb():
+        try:
+            return int(re.search(r"MemAvailable:\s+(\d+)", open("/proc/meminfo").read()).group(1)) / (1 << 20)
+        except Exception:
+            return 1e9
+
     def job(h):
+        # admission control: do not start another CBMC while the machine could not absorb one more
+        # job growing to its cap (a job already running is never delayed, so this cannot deadlock)
+        waited = 0
+        while waited < 1800:
+            with RUNNING_LOCK:
+                busy = len(RUNNING)
+            if busy == 0 or mem_available_gb() > min(caps["mem_gb"], 16) + 4:
+                break
+            time.sleep(5)
+            waited += 5
         r = verify_one(h, arts[h["name"]], workdir, h["cap"] or caps["time"], caps["mem_gb"])
         log(f"  {r['status']:<14} {h['name']:<44} {r['wall_s']:7.1f}s solver={r['solver_s']:.1f}s "
             f"vccs={r['vccs_remaining']}/{r['vccs']} sat={r['sat_vars']}v/{r['sat_clauses']}c {r['reason'][:120]}")
@@ -561,6 +577,12 @@ def main():
     with ThreadPoolExecutor(max_workers=a.jobs) as ex:
         for h, r in zip(hs, ex.map(job, hs)):
             results[h["name"]] = r
+    # jobs the watchdog had to kill (machine short of memory while many ran at once) get a second,
+    # solitary run: one at a time they have the whole machine
+    for h in hs:
+        if results[h["name"]]["reason"].startswith("killed by the runner's watchdog"):
+            log(f"  re-running {h['name']} alone")
+            results[h["name"]] = job(h)
     stop.set()
 
     # ---- interpret
